@@ -11,6 +11,22 @@
 #ifndef C05_SLICER_STUB_H
 #define C05_SLICER_STUB_H
 
+/* Representation invariant of the raw decoder's pattern table (8 "ways" per scan line, each a job number
+ * 1..n_jobs, 0, or a negative counter): every entry <= n_jobs, and in every row the first or the last way is not
+ * a job.  decode_pattern() scans a row until the first non-positive way, so this bounds the scan to the row.
+ * Inductive: decode_pattern (C05 decode_out), add_job_to_pattern incl. its failure path and
+ * remove_job_from_pattern (C04 pattern obligations); initial: all-zero table (vbi3_raw_decoder_add_services). */
+static int st_pat_inv(const int8_t *pat, unsigned nrows, unsigned n_jobs)
+{
+  unsigned r, w;
+  for (r = 0; r < nrows; r++) {
+    for (w = 0; w < _VBI3_RAW_DECODER_MAX_WAYS; w++)
+      if (pat[r * _VBI3_RAW_DECODER_MAX_WAYS + w] > (int) n_jobs) return 0;
+    if (pat[r * _VBI3_RAW_DECODER_MAX_WAYS] > 0 && pat[r * _VBI3_RAW_DECODER_MAX_WAYS + _VBI3_RAW_DECODER_MAX_WAYS - 1] > 0) return 0;
+  }
+  return 1;
+}
+
 #define ST_MAXROWS 8
 static unsigned st_max_lines;
 static uint8_t st_verdict[ST_MAXROWS][_VBI3_RAW_DECODER_MAX_JOBS];
